@@ -81,6 +81,13 @@ func checkDerive(c deriveCase) (h.Info, error) {
 	if !bytes.Equal(a.Fingerprint(), pubChild.Fingerprint()) || !bytes.Equal(child.Fingerprint(), pubChild.Fingerprint()) {
 		return info, fmt.Errorf("fingerprints differ: %x vs %x", a.Fingerprint(), pubChild.Fingerprint())
 	}
+	// Public() of a key that is public already is the same extended public key, fingerprint included
+	if pp := pubChild.Public(); pp == nil || pp.IsPrivate() || !bytes.Equal(pp.Fingerprint(), pubChild.Fingerprint()) || !bytes.Equal(pp.Key.Bytes(), pubChild.Key.Bytes()) || !bytes.Equal(pp.ChainCode, pubChild.ChainCode) {
+		return info, fmt.Errorf("Public() of the public child: fingerprint %x, key %x, chain code %x; the public child itself has %x, %x, %x", pp.Fingerprint(), pp.Key.Bytes(), pp.ChainCode, pubChild.Fingerprint(), pubChild.Key.Bytes(), pubChild.ChainCode)
+	}
+	if pp := a.Public().Public(); !bytes.Equal(pp.Fingerprint(), pubChild.Fingerprint()) {
+		return info, fmt.Errorf("Public().Public() of the private child has fingerprint %x, want %x", pp.Fingerprint(), pubChild.Fingerprint())
+	}
 	// several children of the SAME parent object, compared only after all of them exist, against
 	// children of an independently built public parent (buffers or hash state kept on the parent must
 	// not leak from one derivation into another, also not after a derivation that needed a retry)
